@@ -399,7 +399,7 @@ func cmdCheck(args []string) int {
 	}
 
 	// replay new violations (all) and one known violation per finding in the thorough tier
-	replayDir := filepath.Join(verifRoot, "evidence", "replay")
+	replayDir := filepath.Join(evidenceDir(), "replay")
 	os.MkdirAll(replayDir, 0755)
 	old, _ := filepath.Glob(filepath.Join(replayDir, id+"-*.json"))
 	for _, f := range old {
